@@ -191,7 +191,8 @@ def in_domain(seq: Sequence[Any], template_comments: bool) -> bool:
 
 
 def expected(seq: Sequence[Any], overrides: Optional[dict[tuple[int, str], bool]] = None,
-             drop_final_newline: bool = False, blank_either: bool = True) -> tuple[set[str], dict[str, int]]:
+             drop_final_newline: bool = False, blank_either: bool = True,
+             text_alts: Optional[dict[int, set[str]]] = None) -> tuple[set[str], dict[str, int]]:
     """Set of acceptable outputs + which 'either' rules contributed alternatives.
 
     ``overrides`` maps (run position, "l"|"r") -> forced strip decision (diagnosis only).
@@ -204,6 +205,8 @@ def expected(seq: Sequence[Any], overrides: Optional[dict[tuple[int, str], bool]
 
     def piece(x: Any) -> set[str]:
         if isinstance(x, Run):
+            if text_alts is not None and x.pos in text_alts:
+                return set(text_alts[x.pos])  # diagnosis only
             t = x.rendered(ov.get((x.pos, "l")), ov.get((x.pos, "r")))
             if x is last_run and t.endswith("\n"):
                 t = t[:-1]
@@ -305,6 +308,26 @@ def decode_instrumented(seq: Sequence[Any], actual: str) -> Optional[dict[tuple[
             e = k + len(mark)
             got[(x.pos, "r")] = not (e < len(actual) and actual[e] == "\t")
     return got
+
+
+def partial_strip_alts(run: Run) -> dict[str, tuple[str, str]]:
+    """Diagnosis only: renderings of a run in which a stripped edge keeps part of its whitespace.
+    rendering -> (leading whitespace kept, trailing whitespace kept)."""
+    t = run.text
+    core = t.strip()
+    lead = t[: len(t) - len(t.lstrip())]
+    trail = t[len(t.rstrip()):] if core else ""
+    if not core:  # whitespace-only run: whatever survives was kept
+        cands = [t[i:] for i in range(len(t) + 1)] if run.ls else []
+        cands += [t[:i] for i in range(len(t), -1, -1)] if run.rs else []
+        return {c: (c, "") for c in cands}
+    leads = [lead[i:] for i in range(len(lead) + 1)] if run.ls else [lead]
+    trails = [trail[:i] for i in range(len(trail), -1, -1)] if run.rs else [trail]
+    out: dict[str, tuple[str, str]] = {}
+    for a in leads:
+        for b in trails:
+            out.setdefault(a + core + b, (a if run.ls else "", b if run.rs else ""))
+    return out
 
 
 def describe_neighbour(e: Optional[Lex], side: str) -> dict[str, Any]:
